@@ -35,6 +35,7 @@ import Walleye.Proofs.StartWF
 import Walleye.Proofs.Complete
 import Walleye.Props.C02
 import Walleye.Props.C05
+import Walleye.Proofs.FenFaithful
 namespace Walleye
 
 theorem spec_legalMoves_sound_complete (P : Spec.Position) (m : Spec.Move) (hm : m ∈ Spec.allMoves) :
@@ -113,6 +114,24 @@ theorem exactly_the_legal_moves_from_the_start_position (q : Pos) (hc : GenChain
     (m : Spec.Move) :
     (∃ s ∈ generateMoves Hasher.real q .all, moveOf s = m) ↔ Spec.legal (abs q) m = true :=
   exactly_the_legal_moves_along_chains Hasher.real startPosition q start_wf start_inv hc m
+
+/-- **C01 for every legal position given as FEN**, and for every position reached from it by generated
+    moves: the position loaded from the canonical FEN text of a legal SPEC position `P` (any counters)
+    abstracts to `P`, and the generator yields exactly the legal moves there and along every chain -/
+theorem exactly_the_legal_moves_of_every_fen_position (h : Hasher) (P : Spec.Position) (hsz : P.cells.size = 64)
+    (hlegal : Spec.LegalPosition P = true) (half full : List Char) (hh : CounterOK half) (hf : CounterOK full) :
+    ∃ p, fromFen h (canonText P half full) = .ok p ∧ abs p = P ∧
+      ∀ q, GenChain h p q → ∀ m : Spec.Move,
+        ((∃ s ∈ generateMoves h q .all, moveOf s = m) ↔ Spec.legal (abs q) m = true) := by
+  have hlp := LP_of P hlegal
+  have hep : ∀ e, P.ep = some e → InB e := by
+    intro e he
+    obtain ⟨h1, h2, _⟩ := hlp.ep e he
+    refine ⟨h1, ?_⟩
+    rw [h2]; cases P.side.opp <;> decide
+  obtain ⟨p, hload, habs, hwf⟩ := fromFen_canonical h P hsz hep half full hh hf
+  obtain ⟨wf, hinv⟩ := hwf hlp
+  exact ⟨p, hload, habs, fun q hc m => exactly_the_legal_moves_along_chains h p q wf hinv hc m⟩
 
 /-- the premises are satisfiable: the start position is well formed -/
 theorem start_is_well_formed : WFp startPosition := start_wf
